@@ -31,7 +31,7 @@ from typing import Any, Callable, Dict, Iterable, List, Optional, Sequence, Set,
 
 from sa import astq
 from sa import lpmodel as lp
-from sa.microeval import Instance, Interp, NotEvaluable, ProgramError, StepLimit
+from sa.microeval import Instance, Interp, NotEvaluable, ProgramError, StepLimit, coverage_gaps
 from sa.model import FuncInfo, norm
 
 MOD, CLS = "common", "BpSeq"
@@ -346,6 +346,66 @@ def early_exits(fn: ast.AST) -> str:
     return ("; the function leaves a loop early: " + ", ".join(f"`{k}` at line {ln}" for ln, k in out[:3])) if out else ""
 
 
+def partial_matchings(n: int) -> List[List[Tuple[int, int]]]:
+    """All sets of disjoint pairs (i < j) over the positions 1..n."""
+
+    def rec(points: Tuple[int, ...]) -> Iterable[List[Tuple[int, int]]]:
+        if not points:
+            yield []
+            return
+        a, rest = points[0], points[1:]
+        yield from rec(rest)  # a unpaired
+        for k, b in enumerate(rest):
+            for m in rec(rest[:k] + rest[k + 1 :]):
+                yield [(a, b)] + m
+
+    return [sorted(m) for m in rec(tuple(range(1, n + 1)))]
+
+
+def stems_ref(pairs: Sequence[Tuple[int, int]]) -> List[Region]:
+    out: List[List[int]] = []
+    for i, j in sorted(pairs):
+        if out and out[-1][0] + out[-1][2] == i and out[-1][1] - out[-1][2] == j:
+            out[-1][2] += 1
+        else:
+            out.append([i, j, 1])
+    return [tuple(r) for r in out]  # type: ignore[misc]
+
+
+def dense_structures(max_n: int = 6) -> List[Tuple[int, List[Tuple[int, int]], List[Region]]]:
+    """Small real structures with contiguous numbering (neighbouring residues may pair): (length, pairs, stems)."""
+    out = []
+    for n in range(2, max_n + 1):
+        for pm in partial_matchings(n):
+            if pm and (n == 2 or any(n in p for p in pm) or len(pm) * 2 >= n - 1):
+                out.append((n, pm, stems_ref(pm)))
+    return out
+
+
+def reached_all(repo, cov: set, anchors: Sequence[FuncInfo], upto: Optional[Dict[str, int]] = None) -> Optional[str]:
+    """None when the evaluated input classes reached every part of the anchor functions (and of every helper of the class
+    that does not exist in the reference copy and was entered); otherwise what was not reached.  Without that, 'holds on
+    every class' says nothing about the unreached part (a size cap, a special case for long inputs ...)."""
+    ref = getattr(repo, "reference", {}).get(MOD)
+    targets = list(anchors)
+    for q, f in repo.module(MOD).funcs.items():
+        if "<locals>" in q or f in targets:
+            continue
+        if id(f.node) in cov and ref is not None and q not in ref.funcs:
+            targets.append(f)
+    for f in targets:
+        node = f.node
+        if upto and f.qualname in upto:
+            import copy as _copy
+
+            node = _copy.copy(f.node)
+            node.body = f.node.body[: upto[f.qualname]]
+        gaps = coverage_gaps(cov, node)
+        if gaps:
+            return f"the input classes do not reach all of {f.qualname}: " + "; ".join(gaps)
+    return None
+
+
 # ---------------------------------------------------------------------------------------------------------------------
 # cases
 
@@ -367,6 +427,11 @@ def arc_cases(max_perm: int = 3, max_sorted: int = 4) -> List[List[Region]]:
     for n in (2, 3):
         for m in matchings(n):
             out.append(embed(m, scale=1))
+    # small real structures with contiguous numbering (pairs between neighbouring residues, stems touching each other)
+    for _, _, stems in dense_structures(6):
+        if tuple(stems) not in seen:
+            seen.add(tuple(stems))
+            out.append(list(stems))
     return out
 
 
@@ -414,6 +479,10 @@ def fcfs_fact(chk, n_levels: int = 30) -> Optional[str]:
                 problems.setdefault("levels", (fi.where, f"BpSeq.fcfs is not first-fit for the stems {show(regs)} ({relation_text(regs)}){why}{early_exits(fi.node)}", want, tok.levels or tok.note))
     except NotEvaluable as ex:
         return str(ex)
+    if not problems:
+        gap = reached_all(repo, it.cov, [fi])
+        if gap:
+            return gap
     for key, (site, msg, want, got) in problems.items():
         chk.violation("region-triple" if key == "regions" else "fcfs-first-fit", site, msg, K(fi, f"fcfs-{key}"), expected=want, found=got)
     if not problems:
@@ -491,7 +560,7 @@ def _top_index(fn: ast.FunctionDef, node: ast.AST) -> Optional[int]:
     return None
 
 
-def graph_value(it: Interp, fi: FuncInfo, recv: Instance) -> Tuple[Any, str]:
+def graph_value(it: Interp, fi: FuncInfo, recv: Instance, no_solver: bool = False) -> Tuple[Any, str, int]:
     """Interpret the part of `fi` that ends with the conflict graph being complete; (graph object, how it is obtained)."""
     fn = fi.node
     builders = graph_builders(it.repo)
@@ -518,19 +587,21 @@ def graph_value(it: Interp, fi: FuncInfo, recv: Instance) -> Tuple[Any, str]:
         how = f"obtained from `{norm(first_kind[2])}`"
     env: Dict[str, Any] = {"self": recv}
     for a in fn.args.args[1:]:
-        env[a.arg] = lp.Solver(lp.World(), "STUB")
+        env[a.arg] = None if no_solver else lp.Solver(lp.World(), "STUB")
     kind, val, loc = it.run_block(fn.body[: last + 1], env, CLS)
+    if no_solver:
+        return None, how, last + 1
     if kind == "return":
         raise NotEvaluable("the function returns before its conflict graph is complete on a knotted input")
     if g is not None:
         if g not in loc:
             raise NotEvaluable(f"`{g}` is not bound after the construction")
-        return loc[g], how
+        return loc[g], how, last + 1
     st = fn.body[last]
     if isinstance(st, (ast.Assign, ast.AnnAssign)):
         tgt = st.targets[0] if isinstance(st, ast.Assign) else st.target
         if isinstance(tgt, ast.Name) and tgt.id in loc:
-            return loc[tgt.id], how
+            return loc[tgt.id], how, last + 1
     raise NotEvaluable(f"the statement `{norm(st)[:60]}` that obtains the conflict graph does not bind it to a name")
 
 
@@ -544,6 +615,7 @@ def graph_fact(chk, fi: FuncInfo) -> Optional[str]:
     fi = host
     n_cases = 0
     how = ""
+    upto = 0
     problem = None
     try:
         for regs in arc_cases():
@@ -557,7 +629,7 @@ def graph_fact(chk, fi: FuncInfo) -> Optional[str]:
             if kind != "value":
                 problem = problem or (site_of(fi, getattr(val, "lineno", None)), f"building the conflict graph {'raises ' + str(val) if kind == 'raise' else 'does not finish'} for the stems {show(regs)} ({relation_text(regs)})", want, None)
                 continue
-            g, how = val
+            g, how, upto = val
             try:
                 got = {k: set(v) for k, v in dict(g).items() if len(v)}
             except Exception:
@@ -575,6 +647,15 @@ def graph_fact(chk, fi: FuncInfo) -> Optional[str]:
                 problem = (fi.where, f"the conflict graph ({how}) is not the crossing relation for the stems {show(regs)}: " + "; ".join(what), {k: sorted(v) for k, v in want.items()}, {k: sorted(v) for k, v in got.items()})
     except NotEvaluable as ex:
         return str(ex)
+    if not problem:
+        try:  # the way out for a missing solver lies before the graph: reach it once (its verdict is C13's)
+            rec = Recorder()
+            graph_value(it, fi, receiver(it, KNOTTED, rec, fcfs=True), no_solver=True)
+        except (NotEvaluable, ProgramError, StepLimit):
+            pass
+        gap = reached_all(repo, it.cov, [fi], {fi.qualname: upto})
+        if gap:
+            return gap
     if problem:
         chk.violation("conflict-graph-fact", problem[0], problem[1], K(fi, "graph-edges"), expected=problem[2], found=problem[3])
     else:
@@ -649,6 +730,10 @@ def enumeration_fact(chk) -> Optional[str]:
                 problems.setdefault("repeat", (fi.where, f"for the stems {show(regs)} ({rel}) the notation with levels {list(dup)} occurs {got.count(dup)} times in the list: equal assignments reached through different orders are not merged", len(want), len(got)))
     except NotEvaluable as ex:
         return str(ex)
+    if not problems:
+        gap = reached_all(repo, it.cov, [fi])
+        if gap:
+            return gap
     for key, (site, msg, want, got) in problems.items():
         chk.violation("enumeration-fact", site, msg, K(fi, f"enumeration-{key}"), expected=want, found=got)
     if not problems:
@@ -731,6 +816,10 @@ def stems_fact(chk) -> Optional[str]:
                 problem = (fi.where, "the runs do not hold the entries handed out by self.paired(...) themselves", None, None)
     except NotEvaluable as ex:
         return str(ex)
+    if not problem and not src_problem:
+        gap = reached_all(repo, it.cov, [fi])
+        if gap:
+            return gap
     if problem:
         chk.violation("stems-run-fact", problem[0], problem[1], K(fi, "run-condition"), expected=problem[2], found=problem[3])
     else:
@@ -809,6 +898,10 @@ def from_dotbracket_fact(chk, rule: str = "from-db-fact") -> Optional[str]:
                 problem = (fi.where, f"BpSeq.from_dotbracket for sequence {seq!r}, pairs {pairs}: {why}", want, got)
     except NotEvaluable as ex:
         return str(ex)
+    if not problem:
+        gap = reached_all(repo, it.cov, [fi])
+        if gap:
+            return gap
     if problem:
         chk.violation(rule, problem[0], problem[1], K(fi, "entries"), expected=problem[2], found=problem[3])
     else:
@@ -836,6 +929,10 @@ def post_init_fact(chk) -> Optional[str]:
                 problem = (fi.where, f"BpSeq.pairs for the stems {show(regs)} is {got}, not the symmetric map of every paired entry", want, got)
     except NotEvaluable as ex:
         return str(ex)
+    if not problem:
+        gap = reached_all(repo, it.cov, [fi])
+        if gap:
+            return gap
     if problem:
         chk.violation("bpseq-pairs-fact", problem[0], problem[1], K(fi, "pairs"), expected=problem[2], found=problem[3])
     else:
@@ -859,73 +956,86 @@ def _snapshot(recv: Instance) -> Dict[str, Any]:
 
 
 def isolated_fact(chk) -> Optional[str]:
-    """BpSeq.without_isolated on every pattern (isolated? per stem) of <= 3 stems: a new structure with fresh entries in
-    which exactly both ends of every stem of length one are unpaired; the receiver itself when there is none; the receiver is left as it was."""
+    """BpSeq.without_isolated on small real structures (every set of pairs over <= 6 contiguous residues, incl. pairs of
+    neighbouring residues) and on every pattern of stem lengths 1..3 for <= 3 spread-out stems: a new structure with fresh
+    entries in which exactly both ends of every stem of length one are unpaired and whose own `pairs` agree with its
+    entries; the receiver itself when there is none; the receiver is left as it was."""
     repo = chk.repo
     fi = repo.func(MOD, f"{CLS}.without_isolated")
     chk.note_function(fi)
     it = Interp(repo, MOD)
     it.override_ctor("Entry", E)
-    it.override_ctor(CLS, Built)
     problems: Dict[str, Tuple[str, str, Any, Any]] = {}
+    cases: List[List[Region]] = [list(st) for _, _, st in dense_structures(6)]
+    for k in range(0, 4):
+        for pattern in itertools.product((1, 2, 3), repeat=k):
+            for arcs in ([m for m in matchings(k)][:: max(1, len(matchings(k)) // 3)] if k else [()]):
+                cases.append(embed(arcs, lengths=list(pattern)))
     n = 0
     try:
-        for k in range(0, 4):
-            for pattern in itertools.product((1, 2, 3), repeat=k):
-                for arcs in ([m for m in matchings(k)][:: max(1, len(matchings(k)) // 3)] if k else [()]):
-                    n += 1
-                    regs = embed(arcs, lengths=list(pattern))
-                    ents = entries_of(regs)
-                    pairs = {e.index_: e.pair for e in ents if e.pair}
-                    stems = [_NS(strand5p=_NS(first=s, last=s + L - 1), strand3p=_NS(first=e - L + 1, last=e)) for s, e, L in regs]
-                    recv = it.instance(CLS, attrs={"entries": ents, "pairs": dict(pairs)}, over={"elements": (stems, [], [], []), "__stems_entries": stems_of(regs, ents)})
-                    before = _snapshot(recv)
-                    kind, val = attempt(lambda: it.call_member(recv, "without_isolated"))
-                    desc = f"stems {[(s, e, L) for s, e, L in regs]} (start, partner, length)"
-                    if kind != "value":
-                        problems.setdefault("raise", (site_of(fi, getattr(val, "lineno", None)), f"BpSeq.without_isolated {'raises ' + str(val) if kind == 'raise' else 'does not finish'} for {desc}", None, None))
-                        continue
-                    after = _snapshot(recv)
-                    if after != before:
-                        changed = [a for a in before if after.get(a) != before[a]] + [a for a in after if a not in before]
-                        problems.setdefault("receiver", (fi.where, f"BpSeq.without_isolated changes the structure it is called on: `{changed[0]}` is {after.get(changed[0])} afterwards (was {before.get(changed[0])}) for {desc}", before.get(changed[0]), after.get(changed[0])))
-                    iso = [r for r in regs if r[2] == 1]
-                    want = [tuple(e) for e in ents]
-                    for s, e, L in iso:
-                        want[s - 1] = (s, want[s - 1][1], 0)
-                        want[e - 1] = (e, want[e - 1][1], 0)
-                    if not iso:
-                        if val is not recv and not (isinstance(val, Built) and [tuple(e) for e in val.entries] == want):
-                            problems.setdefault("result", (fi.where, f"with no isolated pair the result is {val!r}, neither the structure itself nor an equal one, for {desc}", None, None))
-                        continue
-                    if not isinstance(val, Built):
-                        problems.setdefault("result", (fi.where, f"BpSeq.without_isolated returns {'the receiver itself' if val is recv else repr(val)[:60]} although {len(iso)} stem(s) of length one exist, for {desc}", None, None))
-                        continue
-                    try:
-                        got = [tuple(e) for e in val.entries]
-                    except Exception:
-                        got = None
-                    if got != want:
-                        if got is not None and len(got) == len(want):
-                            diff = [i for i in range(len(want)) if got[i] != want[i]]
-                            i = diff[0]
-                            half = [r for r in iso if want[i][0] in (r[0], r[1])]
-                            why = (f"entry {want[i][0]} (an end of the isolated pair {half[0][0]}-{half[0][1]}) keeps pair {got[i][2]}" if half else f"entry {want[i][0]} becomes {got[i]} although it belongs to no isolated pair")
-                        else:
-                            why = "the entry list has another length"
-                        problems.setdefault("select", (fi.where, f"BpSeq.without_isolated for {desc}: {why}; exactly both ends of every stem of length one must be unpaired", want, got))
-                        continue
-                    if any(any(x is y for y in ents) for x in val.entries):
-                        problems.setdefault("copy", (fi.where, "the derived structure shares Entry objects with the structure it was derived from (a later change of one shows in the other)", None, None))
+        for regs in cases:
+            n += 1
+            ents = entries_of(regs)
+            pairs = {e.index_: e.pair for e in ents if e.pair}
+            stems = [_NS(strand5p=_NS(first=s, last=s + L - 1), strand3p=_NS(first=e - L + 1, last=e)) for s, e, L in regs]
+            recv = it.instance(CLS, attrs={"entries": ents, "pairs": dict(pairs)}, over={"elements": (stems, [], [], []), "__stems_entries": stems_of(regs, ents), "__regions": [tuple(r) for r in regs]})
+            before = _snapshot(recv)
+            kind, val = attempt(lambda: it.call_member(recv, "without_isolated"))
+            desc = f"stems {[(s, e, L) for s, e, L in regs]} (start, partner, length)"
+            if kind != "value":
+                problems.setdefault("raise", (site_of(fi, getattr(val, "lineno", None)), f"BpSeq.without_isolated {'raises ' + str(val) if kind == 'raise' else 'does not finish'} for {desc}", None, None))
+                continue
+            after = _snapshot(recv)
+            if after != before:
+                changed = [a for a in before if after.get(a) != before[a]] + [a for a in after if a not in before]
+                problems.setdefault("receiver", (fi.where, f"BpSeq.without_isolated changes the structure it is called on: `{changed[0]}` is {after.get(changed[0])} afterwards (was {before.get(changed[0])}) for {desc}", before.get(changed[0]), after.get(changed[0])))
+            iso = [r for r in regs if r[2] == 1]
+            want = [tuple(e) for e in ents]
+            for s_, e_, L in iso:
+                want[s_ - 1] = (s_, want[s_ - 1][1], 0)
+                want[e_ - 1] = (e_, want[e_ - 1][1], 0)
+            is_bpseq = isinstance(val, Instance) and val._cls == CLS and "entries" in val._attrs
+            if not iso:
+                if val is not recv and not (is_bpseq and [tuple(e) for e in val._attrs["entries"]] == want):
+                    problems.setdefault("result", (fi.where, f"with no isolated pair the result is {val!r}, neither the structure itself nor an equal one, for {desc}", None, None))
+                continue
+            if val is recv or not is_bpseq:
+                problems.setdefault("select" if val is recv else "result", (fi.where, f"BpSeq.without_isolated returns {'the structure itself' if val is recv else repr(val)[:60]} although {len(iso)} stem(s) of length one exist ({[(r[0], r[1]) for r in iso]}), for {desc}: an isolated pair is kept", want, None))
+                continue
+            try:
+                got = [tuple(e) for e in val._attrs["entries"]]
+            except Exception:
+                got = None
+            if got != want:
+                if got is not None and len(got) == len(want):
+                    i = next(i for i in range(len(want)) if got[i] != want[i])
+                    half = [r for r in iso if want[i][0] in (r[0], r[1])]
+                    why = (f"entry {want[i][0]} (an end of the isolated pair {half[0][0]}-{half[0][1]}) keeps pair {got[i][2]}" if half else f"entry {want[i][0]} becomes {got[i]} although it belongs to no isolated pair")
+                else:
+                    why = "the entry list has another length"
+                problems.setdefault("select", (fi.where, f"BpSeq.without_isolated for {desc}: {why}; exactly both ends of every stem of length one must be unpaired", want, got))
+                continue
+            if any(any(x is y for y in ents) for x in val._attrs["entries"]):
+                problems.setdefault("copy", (fi.where, "the derived structure shares Entry objects with the structure it was derived from (a later change of one shows in the other)", None, None))
+            own = val._attrs.get("pairs")
+            want_pairs = {w[0]: w[2] for w in want if w[2]}
+            if own is not None and own != want_pairs:
+                stale = sorted(set(own.items()) - set(want_pairs.items()))
+                problems.setdefault("stale", (fi.where, f"the structure returned by BpSeq.without_isolated for {desc} answers `pairs` = {own} although its entries pair only {want_pairs}: its entries were changed after it had been constructed, so its own cached state disagrees with them" + (f" (stale: {stale[:2]})" if stale else ""), want_pairs, own))
     except NotEvaluable as ex:
         return str(ex)
-    rules = {"receiver": "receiver-write", "select": "isolated-select", "copy": "isolated-copy", "result": "isolated-result", "raise": "isolated-select"}
+    if not problems:
+        gap = reached_all(repo, it.cov, [fi])
+        if gap:
+            return gap
+    rules = {"receiver": "receiver-write", "select": "isolated-select", "copy": "isolated-copy", "result": "isolated-result", "raise": "isolated-select", "stale": "derived-consistent"}
     for key, (site, msg, want, got) in problems.items():
         chk.violation(rules[key], site, msg, K(fi, f"isolated-{key}"), expected=want, found=got)
     if not problems:
-        chk.ok("isolated-select", fi.where, f"evaluated on {n} stem sets (every pattern of stem lengths 1..3 for <= 3 stems): exactly both ends of every stem of length one are unpaired")
+        chk.ok("isolated-select", fi.where, f"evaluated on {n} structures (every set of pairs over <= 6 contiguous residues; every pattern of stem lengths 1..3 for <= 3 stems): exactly both ends of every stem of length one are unpaired")
         chk.ok("isolated-copy", fi.where, "the derived structure has its own Entry objects (evaluated: identity of every entry)")
-        chk.ok("isolated-result", fi.where, "BpSeq(<new entries>) is returned, the structure itself when nothing is isolated; the receiver is unchanged after the call (evaluated)")
+        chk.ok("isolated-result", fi.where, "a new BpSeq is returned, the structure itself when nothing is isolated; the receiver is unchanged after the call (evaluated)")
+        chk.ok("derived-consistent", fi.where, "the derived structure's own `pairs` agree with its entries (evaluated)")
     return None
 
 
@@ -968,6 +1078,10 @@ def pseudoknots_fact(chk) -> Optional[str]:
                 problems["receiver"] = (dfi.where, "DotBracket.without_pseudoknots changes the notation it is called on", structure, db._attrs.get("structure"))
     except NotEvaluable as ex:
         return str(ex)
+    if not problems:
+        gap = reached_all(repo, it.cov, [fi, dfi])
+        if gap:
+            return gap
     rules = {"raise": "pk-class", "result": "pk-via-dotbracket", "sequence": "derived-sequence", "pairs": "pk-class", "receiver": "receiver-write"}
     for key, (site, msg, want, got) in problems.items():
         chk.violation(rules[key], site, msg, K(fi, f"pk-{key}"), expected=want, found=got)
@@ -1020,6 +1134,7 @@ def fault_fact(chk) -> Optional[str]:
     chk.note_function(dotb)
     seen: Dict[str, bool] = {}
     n = 0
+    cov: set = set()
 
     def report(rule: str, key: str, site: str, msg: str, expected=None, found=None):
         if key in seen:
@@ -1028,7 +1143,7 @@ def fault_fact(chk) -> Optional[str]:
         chk.violation(rule, site, msg, f"{MOD}:{conv.qualname}:{key}", expected=expected, found=found)
 
     def run(fi, regs, world, call):
-        it = Interp(repo, MOD, {"pulp": lp.Pulp(world)})
+        it = Interp(repo, MOD, {"pulp": lp.Pulp(world)}, cov=cov)
         rec = Recorder()
         recv = receiver(it, regs, rec, fcfs=True)
         kind, val = attempt(lambda: call(it, recv))
@@ -1104,6 +1219,10 @@ def fault_fact(chk) -> Optional[str]:
                             report("fallback-is-fcfs", "prop-none", dotb.where, f"BpSeq.dot_bracket with no back-end at all returns {val!r} for {what}, not the FCFS notation")
     except NotEvaluable as ex:
         return str(ex)
+    if not seen:
+        gap = reached_all(repo, cov, [conv, dotb])
+        if gap:
+            return gap
     if not seen:
         for rule, text in (
             ("solve-handled", "a solver raising PulpSolverError ends in the FCFS notation"),
@@ -1326,9 +1445,13 @@ def model_fact(chk) -> Optional[str]:
         seen[key] = True
         chk.violation(rule, site or fi.where, msg, K(fi, key), expected=expected, found=found)
 
-    def run(regs, values: Optional[Dict[str, int]], store: Optional[Dict[str, Any]] = None):
-        w = lp.World(_capture(values, store))
-        it = Interp(repo, MOD, {"pulp": lp.Pulp(w)})
+    cov: set = set()
+
+    def run(regs, values: Optional[Dict[str, int]], store: Optional[Dict[str, Any]] = None, outcome=None, none_solver: bool = False):
+        w = lp.World(outcome or _capture(values, store))
+        it = Interp(repo, MOD, {"pulp": lp.Pulp(w)}, cov=cov)
+        if none_solver:
+            w.default_solver = None
         rec = Recorder()
         recv = receiver(it, regs, rec, fcfs=True)
         kind, val = attempt(lambda: it.call_member(recv, "convert_to_dot_bracket", w.default_solver))
@@ -1505,8 +1628,16 @@ def model_fact(chk) -> Optional[str]:
                     report("milp-readback", "readback-wide", f"for 11 mutually crossing stems the solver's assignment {sol} (levels and stem numbers above 9) is read back as {got}: the parsing of the variable name loses a digit", sol, got)
             else:
                 chk.ok("milp-readback", fi.where, "variable names do not follow x_<stem>_<level>; two-digit indices are not probed")
+        # the fault paths belong to the function too (their verdicts are C13's; here they only have to be reached)
+        run(KNOTTED, None, outcome=_raising_outcome)
+        run(KNOTTED, None, outcome=_status_outcome(lp.LpStatusNotSolved))
+        run(KNOTTED, None, none_solver=True)
     except NotEvaluable as ex:
         return str(ex)
+    if not seen:
+        gap = reached_all(repo, cov, [fi])
+        if gap:
+            return gap
     if not seen:
         chk.ok("milp-empty-graph", fi.where, "evaluated: without crossings every stem gets level 0 and no solver is used")
         for rule, text in (
@@ -1549,6 +1680,10 @@ def regions_fact(chk) -> Optional[str]:
                 problem = (fi.where, f"the region list for the stems {want} (first 5' index, partner, length) is {got}: a region does not describe its stem", want, got)
     except NotEvaluable as ex:
         return str(ex)
+    if not problem:
+        gap = reached_all(repo, it.cov, [fi])
+        if gap:
+            return gap
     if problem:
         chk.violation("region-triple", problem[0], problem[1], K(fi, "region-triple"), expected=problem[2], found=problem[3])
     else:
@@ -1657,6 +1792,10 @@ def fill_fact(chk) -> Optional[str]:
                 problems.setdefault("roundtrip", (fi.where, f"the library's decoder reads the notation `{got}` written for {desc} back as {sorted(tuple(p) for p in pairs)}, not as the stems' pairs", want_pairs, sorted(tuple(p) for p in pairs)))
     except NotEvaluable as ex:
         return str(ex)
+    if not problems:
+        gap = reached_all(repo, it.cov, [fi])
+        if gap:
+            return gap
     rules = {"raise": "fill-stores", "result": "fill-result", "width": "fill-width", "alphabet": "alphabet-agree", "stores": "fill-stores", "roundtrip": "alphabet-agree"}
     for key, (site, msg, want, got) in problems.items():
         chk.violation(rules[key], site, msg, K(fi, f"fill-{key}"), expected=want, found=got)
